@@ -4,18 +4,17 @@
 //   auto& b = verif_access(table, KadBuckets{});
 #pragma once
 
-namespace verif_access_detail {
+// (global namespace on purpose: the friend defined here must be the same function the tag declares)
 template <typename Tag, typename Tag::type M>
-struct Rob {
+struct VerifAccessRob {
     friend typename Tag::type verif_get(Tag) { return M; }
 };
-}  // namespace verif_access_detail
 
 #define VERIF_ACCESS_MEMBER(TagName, Class, member, ...)                                  \
     struct TagName {                                                                       \
         using type = __VA_ARGS__ Class::*;                                                 \
         friend type verif_get(TagName);                                                    \
     };                                                                                     \
-    template struct verif_access_detail::Rob<TagName, &Class::member>;                     \
+    template struct VerifAccessRob<TagName, &Class::member>;                     \
     inline __VA_ARGS__& verif_access(Class& obj, TagName) { return obj.*verif_get(TagName{}); } \
     inline const __VA_ARGS__& verif_access(const Class& obj, TagName) { return obj.*verif_get(TagName{}); }
